@@ -86,7 +86,9 @@ def corrupted_nodes():
     c = copy.deepcopy(rows); c[idx("M", 5)]["m"] = [1 + 64 * 2]; cases.append(("illegal move", c, ("VIOL", "C04")))
     first_end = idx("end", 0)
     last_root_p = [i for i, x in enumerate(rows) if x.get("e") == "P" and x["p"] == 0 and i < first_end][-1]
-    c = copy.deepcopy(rows); del c[last_root_p]; cases.append(("dropped line update", c, ("VIOL", "C08")))
+    c = copy.deepcopy(rows); del c[last_root_p]; cases.append(("dropped line update", c, ("DRIFT", "NODES")))
+    pm = [i for i, x in enumerate(rows) if x.get("e") == "P" and len(x["m"]) > 1][1]
+    c = copy.deepcopy(rows); c[pm]["m"][1] += 1; cases.append(("altered line tail", c, ("VIOL", "C08")))
     c = copy.deepcopy(rows); i = idx("M", 20); c.insert(i, {"e": "X", "p": c[i]["p"], "v": [0, 0, 0], "m": []}); cases.append(("step after stop", c, ("VIOL", "C09")))
     c = copy.deepcopy(rows); m0 = [i for i, x in enumerate(c) if x.get("e") == "M" and x["p"] == 0]; c[m0[1]]["m"] = c[m0[0]]["m"]; cases.append(("move twice", c, ("VIOL", "C10")))
     c = copy.deepcopy(rows); i = [i for i, x in enumerate(c) if x.get("e") == "S" and x["v"][1] > 0][3]; c[i]["v"][2] = 1 - c[i]["v"][2]; cases.append(("check flag", c, ("VIOL", "C01")))
